@@ -2,6 +2,7 @@ package main
 
 import (
 	"fmt"
+	"sort"
 	"strconv"
 	"strings"
 
@@ -127,7 +128,9 @@ func (s *pStmt) SQL(ind string) string {
 		}
 		return ind + "DECLARE " + s.name + " FUNCTION (" + strings.Join(ps, ", ") + ") AS BEGIN\n" + renderStmts(s.body, ind+"  ") + ind + "END;\n"
 	case "cursor":
-		return ind + "DECLARE " + s.name + " CURSOR FOR SELECT 1;\n"
+		return ind + "DECLARE " + s.name + " CURSOR FOR SELECT " + strconv.Itoa(s.limit) + ";\n"
+	case "show_cursors":
+		return ind + "SHOW CURSORS;\n"
 	case "probe_cursor":
 		return ind + "PRINT CURSOR " + s.name + " IS OPEN;\n"
 	case "view":
@@ -144,11 +147,12 @@ type pBlock struct {
 	vars    map[string]*int
 	funcs   map[string]*pStmt
 	cursors map[string]bool
+	curQ    map[string]int // the number each cursor's query selects (tells same-named cursors of different blocks apart)
 	views   map[string][]int
 }
 
 func newPBlock() *pBlock {
-	return &pBlock{vars: map[string]*int{}, funcs: map[string]*pStmt{}, cursors: map[string]bool{}, views: map[string][]int{}}
+	return &pBlock{vars: map[string]*int{}, funcs: map[string]*pStmt{}, cursors: map[string]bool{}, curQ: map[string]int{}, views: map[string][]int{}}
 }
 
 type pInterp struct {
@@ -444,6 +448,22 @@ func (in *pInterp) exec(env []*pBlock, ss []*pStmt, inLoop bool) (int, int, *pEr
 				return flNone, 0, &pErr{"cursor redeclared"}
 			}
 			cur.cursors[s.name] = true
+			cur.curQ[s.name] = s.limit
+		case "show_cursors":
+			seen := map[string]int{}
+			var names []string
+			for i := len(env) - 1; i >= 0; i-- {
+				for n := range env[i].cursors {
+					if _, ok := seen[n]; !ok {
+						seen[n] = env[i].curQ[n]
+						names = append(names, n)
+					}
+				}
+			}
+			sort.Strings(names)
+			for _, n := range names {
+				in.out = append(in.out, n, "Status:", "Closed", "Query:", "SELECT", strconv.Itoa(seen[n]))
+			}
 		case "probe_cursor":
 			found := false
 			for i := len(env) - 1; i >= 0; i-- {
@@ -487,11 +507,13 @@ func (in *pInterp) exec(env []*pBlock, ss []*pStmt, inLoop bool) (int, int, *pEr
 // ---- generator -------------------------------------------------------------------
 
 type pGen struct {
-	r        *core.Rng
-	loopN    int
-	globals  []string // never-shadowed top-level variables usable inside functions
-	funcs    []string
-	features map[string]bool
+	r         *core.Rng
+	loopN     int
+	curUID    int
+	inCurLoop int
+	globals   []string // never-shadowed top-level variables usable inside functions
+	funcs     []string
+	features  map[string]bool
 }
 
 var pVars = []string{"@a", "@b", "@c"}
@@ -603,7 +625,9 @@ func (g *pGen) block(vis []string, declaredHere map[string]bool, depth int, inLo
 				vis = append(vis, lv)
 			}
 			cl := &pStmt{k: "curloop", name: lv, limit: g.loopN}
+			g.inCurLoop++
 			cl.body = g.block(append([]string{}, vis...), map[string]bool{}, depth+1, true, inFunc, g.r.Range(1, 3))
+			g.inCurLoop--
 			if inFunc && g.r.P(60) {
 				cl.body = append(cl.body, &pStmt{k: "if", cond: g.cond(vis), body: []*pStmt{{k: "return", e: g.expr(vis, 1, false)}}})
 			}
@@ -705,9 +729,13 @@ func (g *pGen) block(vis []string, declaredHere map[string]bool, depth int, inLo
 				}
 			}
 			if !known && (g.r.P(70) || !declaredHere[name]) && !declaredHere[name] {
-				out = append(out, &pStmt{k: "cursor", name: name})
+				g.curUID++
+				out = append(out, &pStmt{k: "cursor", name: name, limit: 1000 + g.curUID})
 				declaredHere[name] = true
 				vis = append(vis, name)
+			} else if known && g.inCurLoop == 0 && g.r.P(50) {
+				out = append(out, &pStmt{k: "show_cursors"})
+				g.features["showcursors"] = true
 			} else if known || g.r.P(8) {
 				out = append(out, &pStmt{k: "probe_cursor", name: name})
 			}
@@ -798,7 +826,13 @@ func c15Case(w *core.Worker, i int) {
 	}
 	s.Close()
 	c15Count++
-	got := strings.Fields(strings.ReplaceAll(res.Stdout, "'", ""))
+	var got []string
+	for _, f := range strings.Fields(strings.ReplaceAll(res.Stdout, "'", "")) {
+		if f == "Cursors" || strings.Trim(f, "-") == "" {
+			continue // heading of a SHOW CURSORS listing
+		}
+		got = append(got, f)
+	}
 	want := in.out
 	gotErr, wantErr := "", ""
 	if res.Err != nil {
@@ -840,6 +874,9 @@ func c15Case(w *core.Worker, i int) {
 	}
 	if g.features["shadowfunc"] {
 		w.Count("programs_with_a_shadowing_function", 1)
+	}
+	if g.features["showcursors"] {
+		w.Count("programs_listing_their_cursors", 1)
 	}
 	if g.features["var2"] {
 		w.Count("programs_with_a_two_variable_declaration", 1)
